@@ -67,16 +67,14 @@ def dynamic_evaluate(evaluate_fn: Optional[Callable[[base.HyperValue], Any]],
   if exit_fn is not None and not callable(exit_fn):
     raise ValueError(
         f'\'exit_fn\' must be a callable object. Encountered: {exit_fn!r}.')
-  old_evaluate_fn = base.get_dynamic_evaluate_fn()
   has_errors = False
   try:
-    base.set_dynamic_evaluate_fn(evaluate_fn, per_thread)
-    yield yield_value
+    with base.dynamic_evaluate_fn_scope(evaluate_fn, per_thread):
+      yield yield_value
   except Exception:
     has_errors = True
     raise
   finally:
-    base.set_dynamic_evaluate_fn(old_evaluate_fn, per_thread)
     if not has_errors and exit_fn is not None:
       exit_fn()
 
